@@ -73,8 +73,10 @@ var vfsFiles = map[*os.File]*vfsHandle{}
 // (a real crash stops the process, deferred calls included).
 var vfsFrozen bool
 
-var errVfsNotExist = errors.New("vfs: no such file or directory")
-var errVfsExist = errors.New("vfs: file exists / not a directory")
+// errVfsNotExist is os.ErrNotExist itself, so that os.IsNotExist / errors.Is(err, fs.ErrNotExist)
+// in the code under test see what they see with the real file system.
+var errVfsNotExist = os.ErrNotExist
+var errVfsExist = os.ErrExist
 var errVfsNotEmpty = errors.New("vfs: directory not empty")
 var errVfsClosed = errors.New("vfs: file already closed")
 
